@@ -203,7 +203,7 @@ func (s *Signature) UnmarshalJSON(data []byte) error {
 		return fmt.Errorf("dsig: %w", err)
 	}
 	if len(str) == 0 {
-		return nil
+		return fmt.Errorf("dsig: empty signature")
 	}
 	return s.parse(str)
 }
